@@ -120,10 +120,28 @@ def to_settings(s):
     src = [mkn(c) for c in s['src']]
     tgt = [mkn(c) for c in s['tgt']]
     exist = []
-    for p in s['patterns']:
-        exist.append(NodeExistence(src_n_conn_override={k: list(v) for k, v in p['src_override'].items()} or None,
-                                   tgt_n_conn_override={k: list(v) for k, v in p['tgt_override'].items()} or None,
-                                   max_src_conn_override=p.get('max_src'), max_tgt_conn_override=p.get('max_tgt')))
+    if s.get('construct') == 'alias':
+        # the way a user of the API may write it: absent connectors through the exists masks, and ONE dict object per
+        # distinct explicit override reused for every pattern that has it (the library must not write into it)
+        shared = {}
+
+        def split(ov, n):
+            mask = [ov.get(i) != [0] for i in range(n)]
+            rest = {k: list(v) for k, v in ov.items() if v != [0]}
+            key = repr(sorted(rest.items()))
+            if rest and key not in shared:
+                shared[key] = rest
+            return (mask if not all(mask) else None), (shared[key] if rest else None)
+        for p in s['patterns']:
+            sm, so = split(p['src_override'], len(src))
+            tm, to = split(p['tgt_override'], len(tgt))
+            exist.append(NodeExistence(src_exists=sm, tgt_exists=tm, src_n_conn_override=so, tgt_n_conn_override=to,
+                                       max_src_conn_override=p.get('max_src'), max_tgt_conn_override=p.get('max_tgt')))
+    else:
+        for p in s['patterns']:
+            exist.append(NodeExistence(src_n_conn_override={k: list(v) for k, v in p['src_override'].items()} or None,
+                                       tgt_n_conn_override={k: list(v) for k, v in p['tgt_override'].items()} or None,
+                                       max_src_conn_override=p.get('max_src'), max_tgt_conn_override=p.get('max_tgt')))
     settings = MatrixGenSettings(src=src, tgt=tgt, excluded=[tuple(e) for e in s['excluded']] or None,
                                  existence=NodeExistencePatterns(patterns=exist), max_conn_parallel=s.get('mcp'))
     return settings, exist
@@ -189,10 +207,24 @@ def pool(tier, seed, with_named=True, with_max=False):
     for ns, nt, n in shapes:
         for k_ in range(n):
             out.append(random_settings(rnd, ns, nt, with_max=with_max and k_ % 3 == 0))
+            if k_ % 5 == 2:
+                out[-1]['construct'] = 'alias'
     if with_max:
         c = conn
         out.append(mk([c([1, 2, 3])], [c([0, 1]), c([0, 1]), c([0, 1])], name='degree cap on a list source', with_max=True))
         out.append(mk([c(min_=0), c([0, 1, 2])], [c(min_=1), c([1, 2, 3])], name='degree caps mixed', with_max=True))
+    # the same override dict object shared by several patterns, absences through the exists masks
+    c = conn
+    for nm, sr, tg, pats in (
+            ('alias 2x2', [c([1, 2]), c([0, 1])], [c(min_=0), c([0, 1, 2])],
+             [pattern(2, 2), pattern(2, 2, src_override={0: [1, 2]}, src_absent=[1]), pattern(2, 2, src_override={0: [1, 2]}, tgt_absent=[1]),
+              pattern(2, 2, src_override={0: [1, 2]})]),
+            ('alias 2x3', [c(min_=0), c([1])], [c([0, 1]), c([0, 1]), c(min_=0, rep=False)],
+             [pattern(2, 3, tgt_override={2: [0, 1]}, tgt_absent=[0]), pattern(2, 3, tgt_override={2: [0, 1]}),
+              pattern(2, 3, tgt_override={2: [0, 1]}, src_absent=[0]), pattern(2, 3, tgt_absent=[1])])):
+        a = mk(sr, tg, patterns=pats, name=nm)
+        a['construct'] = 'alias'
+        out.append(a)
     if tier == 'thorough':
         # bounded-exhaustive part: every assignment of the 10-type sub-alphabet to 2x2 connectors would be 10^4
         # settings x ~12 patterns; a seeded third of it keeps the thorough tier at minutes
